@@ -80,6 +80,10 @@ def cases(shard, nshards, seed, tier):
         for t in range(2 if tier == "quick" else 6):
             if mine():
                 yield {"family": "lib-external-conflicts", "module": "external_conflicts", "argv": ["{in}", f"{seed}:{inp}:{t}"], "input": inp}
+    # a residue whose name gives no letter and whose base atoms fit two bases equally (pyrimidine without O4/N4)
+    for t in range(2 if tier == "quick" else 6):
+        if mine():
+            yield {"family": "cli-annotator-ambiguous-base", "module": "annotator", "argv": ["--csv", "o.csv", "--json", "o.json", "{in}"], "ambiguous": t}
     # one interpreter handling several inputs in a row vs a fresh interpreter per input
     for i in range(6 if tier == "quick" else 60):
         if mine():
@@ -229,7 +233,27 @@ def run_case(case, rec):
     seeds = [0, 1, 2] if os.environ.get("VERIF_TIER_EFFECTIVE", _cur.get("tier", "quick")) == "quick" else [0, 1, 2, 4242, "random", "random"]
     workdir = tempfile.mkdtemp(prefix="vmon-c14-")
     try:
-        if "pairs" in case:
+        if "ambiguous" in case:
+            from vmon import emit, gen3d
+
+            core.setup_path()
+            rng = random.Random(f"C14:ambiguous:{case['ambiguous']}")
+            src = gen3d.load(rng.choice(["tests/1ATO.pdb", "tests/1A1T_1_B.cif", "tests/1E7K_1_C.cif"]))
+            rows = emit.rows_from_structure(src)
+            pyr = sorted({(r["chain"], r["resseq"], r["icode"]) for r in rows if r["resname"] in ("U", "C")})
+            victims = set(rng.sample(pyr, min(3, len(pyr))))
+            out = []
+            for r in rows:
+                if (r["chain"], r["resseq"], r["icode"]) in victims:
+                    if r["name"] in ("O4", "N4"):
+                        continue
+                    r = dict(r, resname=rng.choice(["PYO", "4SU", "ZEB"]) if False else "PYO", rec="HETATM")
+                out.append(r)
+            for k, r in enumerate(out, 1):
+                r["serial"] = k
+            inp = os.path.join(workdir, "ambiguous.pdb")
+            open(inp, "w").write(emit.emit_pdb(out))
+        elif "pairs" in case:
             b = mon2d.make_bpseq(case["n"], [tuple(p) for p in case["pairs"]])
             inp = os.path.join(workdir, "input.bpseq")
             open(inp, "w").write(str(b) + "\n")
